@@ -363,9 +363,19 @@ def compare(prop, spec, ops, impl, model):
         if ic == "bad-op" or res_class(mb) == "bad-op":
             failures.append(dict(kind="harness", idx=i, op=o.line, tag=o.tag, detail="bad-op: impl=%s model=%s" % (ib[:1], mb[:1])))
             continue
-        if o.expect:
-            if ib != o.expect:
-                d = first_diff(o.expect, ib)
+        exact = [e for e in o.expect if not e.startswith("@")]
+        special = [e for e in o.expect if e.startswith("@")]
+        bad = None
+        for e in special:
+            bad = check_special(e, ib)
+            if bad:
+                break
+        if bad:
+            failures.append(dict(kind="oracle", idx=i, op=o.line, tag=o.tag, detail=bad))
+            continue
+        if exact:
+            if ib != exact:
+                d = first_diff(exact, ib)
                 failures.append(dict(kind="oracle", idx=i, op=o.line, tag=o.tag,
                                      detail="specification expects %s, implementation gives %s" % d))
                 continue
@@ -374,6 +384,81 @@ def compare(prop, spec, ops, impl, model):
             failures.append(dict(kind="correspondence", idx=i, op=o.line, tag=o.tag,
                                  detail="model gives %s, implementation gives %s" % d))
     return failures
+
+
+def parse_msg(line):
+    d = {}
+    for tok in line.split(" ")[1:]:
+        if "=" in tok:
+            k, v = tok.split("=", 1)
+            d[k] = v
+    return d
+
+
+def list_items(v):
+    v = v.strip()
+    if v.startswith("[") and v.endswith("]"):
+        inner = v[1:-1]
+        return inner.split(",") if inner else []
+    return [v]
+
+
+def check_special(e, block):
+    """oracle lines of the form `@msg <i> Col=val Col?=v1|v2 Col^=[list] Col~`:
+       `=`  the i-th msg line must carry exactly this value (absent when the value is the zero value),
+       `?=` absent or one of the listed values, `^=` absent or a prefix of the list, `~` unconstrained;
+       every column not mentioned must be absent."""
+    ws = e.split(" ")
+    if ws[0] == "@count":
+        want = int(ws[1])
+        got = len([l for l in block if l.startswith("msg")])
+        return None if got == want else "specification expects %d messages, implementation emits %d" % (want, got)
+    if ws[0] == "@maxcount":
+        want = int(ws[1])
+        got = len([l for l in block if l.startswith("msg")])
+        return None if got <= want else "specification allows at most %d messages, implementation emits %d" % (want, got)
+    if ws[0] == "@res":
+        got = res_class(block)
+        return None if got in ws[1].split("|") else "specification expects outcome %s, implementation gives %s" % (ws[1], got)
+    if ws[0] != "@msg":
+        return "unknown oracle line " + e[:60]
+    idx = int(ws[1])
+    msgs = [l for l in block if l.startswith("msg")]
+    if idx >= len(msgs):
+        return "specification expects a message #%d, implementation gives outcome `%s` with %d messages" % (idx, res_class(block), len(msgs))
+    got = parse_msg(msgs[idx])
+    seen = set()
+    zero = ("0", "-", "[]", "")
+    for item in ws[2:]:
+        if not item:
+            continue
+        if item.endswith("~"):
+            seen.add(item[:-1])
+            continue
+        if "?=" in item:
+            k, v = item.split("?=", 1)
+            seen.add(k)
+            if k in got and got[k] not in v.split("|"):
+                return "column %s: implementation reports %s, true value(s) of the frame %s (or unset)" % (k, got[k], v)
+        elif "^=" in item:
+            k, v = item.split("^=", 1)
+            seen.add(k)
+            if k in got:
+                a, b = list_items(got[k]), list_items(v)
+                if a != b[:len(a)]:
+                    return "column %s: implementation reports %s, not a prefix of the true list %s" % (k, got[k], v)
+        elif "=" in item:
+            k, v = item.split("=", 1)
+            seen.add(k)
+            if v in zero:
+                if k in got:
+                    return "column %s: implementation reports %s, true value is the zero value" % (k, got[k])
+            elif got.get(k) != v:
+                return "column %s: specification expects %s, implementation reports %s" % (k, v, got.get(k, "<unset>"))
+    for k in got:
+        if k not in seen:
+            return "column %s=%s reported, but no header of the frame defines it" % (k, got[k][:60])
+    return None
 
 
 def first_diff(a, b):
